@@ -16,6 +16,7 @@ struct cfg {
     size_t item_size;
     int is_static;
     size_t cap; /* initial capacity (dynamic) or fixed capacity (static) */
+    int bool_cmp; /* comparator in the two-valued style the header documents ("return a > b;"), not three-way */
 };
 static struct cfg g_cfg;
 
@@ -38,6 +39,9 @@ static int dead_pops; /* number of elements that ever left (saturating), only fo
 
 static int cmp_items(const void *a, const void *b) {
     const uint8_t *x = (const uint8_t *)a, *y = (const uint8_t *)b;
+    /* priority_queue.h: positive when the second argument has the higher priority, "otherwise a negative value or zero";
+     * its own example of a min-heap comparator is the two-valued "return a > b;" (task_scheduler.c uses that style) */
+    if (g_cfg.bool_cmp) return x[0] > y[0];
     return (int)x[0] - (int)y[0];
 }
 
@@ -470,11 +474,12 @@ static struct esx_model model = {
     .opname = m_opname, .teardown = m_teardown,
 };
 
-static void set_cfg(size_t item, int is_static, size_t cap) {
+static void set_cfg(size_t item, int is_static, size_t cap, int bool_cmp) {
     g_cfg.item_size = item;
     g_cfg.is_static = is_static;
     g_cfg.cap = cap;
-    snprintf(g_cfg.name, sizeof(g_cfg.name), "pq-i%zu-%s%zu", item, is_static ? "static" : "dyn", cap);
+    g_cfg.bool_cmp = bool_cmp;
+    snprintf(g_cfg.name, sizeof(g_cfg.name), "pq-i%zu-%s%zu%s", item, is_static ? "static" : "dyn", cap, bool_cmp ? "-boolcmp" : "");
     model.name = g_cfg.name;
 }
 
@@ -490,19 +495,23 @@ int main(int argc, char **argv) {
         size_t cap;
     } stores[] = {{0, 0}, {0, 1}, {0, 4}, {1, 1}, {1, 3}};
     int rc = 0;
-    for (int i = 0; i < nitems; ++i)
-        for (int s = 0; s < 5; ++s) {
-            set_cfg(items[i], stores[s].st, stores[s].cap);
-            if (v_replay_token) {
-                if (esx_token_is_for(v_replay_token, g_cfg.name)) rc |= esx_replay(&model, v_replay_token);
-                continue;
+    for (int bc = 0; bc < 2; ++bc)
+        for (int i = 0; i < nitems; ++i)
+            for (int s = 0; s < 5; ++s) {
+                /* the two-valued comparator (added after a seeded change whose sift-down tested pred(..) < 0): item size 8, the
+                 * growing dynamic store and the static one; thorough also 129-byte items */
+                if (bc && !((items[i] == 8 || (v_thorough() && items[i] == 129)) && (s == 0 || s == 4))) continue;
+                set_cfg(items[i], stores[s].st, stores[s].cap, bc);
+                if (v_replay_token) {
+                    if (esx_token_is_for(v_replay_token, g_cfg.name)) rc |= esx_replay(&model, v_replay_token);
+                    continue;
+                }
+                if (!v_thorough() && items[i] != 8 && s != 0 && s != 4) continue; /* quick: all stores for size 8, dyn0 + static3 otherwise */
+                if (v_thorough() && items[i] > 129 && (s == 1 || s == 3)) continue;
+                model.max_depth = v_thorough() ? 9 : (items[i] <= 8 ? 8 : 7);
+                esx_run(&model);
+                ESX_CYCLES(&model);
             }
-            if (!v_thorough() && items[i] != 8 && s != 0 && s != 4) continue; /* quick: all stores for size 8, dyn0 + static3 otherwise */
-            if (v_thorough() && items[i] > 129 && (s == 1 || s == 3)) continue;
-            model.max_depth = v_thorough() ? 9 : (items[i] <= 8 ? 8 : 7);
-            esx_run(&model);
-        ESX_CYCLES(&model);
-        }
     v_finish();
     return (v_sh->viol_count || rc) ? 1 : 0;
 }
